@@ -39,7 +39,7 @@ def setup() -> None:
 
 
 def budget(tier: str) -> int:
-    return 3000 if tier == "quick" else 40000
+    return 3000 if tier == "quick" else 150000
 
 
 def generate(rs: int, tier: str, index: int) -> dict:
